@@ -109,6 +109,12 @@ func c08Bads() []CfgLit {
 		mut(func(l *CfgLit) {
 			l.Credentialed, l.PNA, l.PNANoCORS, l.Origins = false, true, true, []string{"https://d.example"}
 		}),
+		{Origins: []string{"*"}, PNA: true, TolInsecure: true, Methods: []string{"QUERY"}, MaxAge: 77},
+		{Origins: []string{"https://d.example", "*"}, PNANoCORS: true, TolInsecure: true, TolPSL: true},
+		{Origins: []string{"*", "https://d.example"}, Credentialed: true, TolInsecure: true, TolPSL: true, RequestHeaders: []string{"X-D"}},
+		{Origins: []string{"https://d.example"}, Credentialed: true, TolInsecure: true, TolPSL: true, ResponseHeaders: []string{"X-U", "*"}},
+		{Origins: []string{"https://*.com."}, TolInsecure: true, Methods: []string{"QUERY"}},
+		{Origins: []string{"http://*.example.co.uk:*"}, PNA: true, TolPSL: true},
 		{Origins: []string{"null", "*", "http://d.example"}, Credentialed: true, PNA: true, PNANoCORS: true, Methods: []string{"TRACE", ""}, RequestHeaders: []string{"Host", "é"}, ResponseHeaders: []string{"*", "Origin"}, MaxAge: -5, Status: 404},
 	}
 }
